@@ -44,3 +44,43 @@ package openapi
 //@   loop 1 modifies elems(string)
 //@   loop 1 invariant* all.required.visited: val != nil && ranged(1) == old(val.Required)
 //@   loop 1 step* required.filtered: len(s.Required) == prev(1, len(s.Required)) + ite(excluded, 0, 1) && (!excluded ==> s.Required[len(s.Required) - 1] == cur) && (forall k int :: 0 <= k && k < prev(1, len(s.Required)) ==> s.Required[k] == prev(1, s.Required[k]))
+
+// The tag list of the OpenAPI documents does not depend on map iteration order: the metadata keys are collected
+// and sorted before they are interpreted (and no other loop of the function ranges over a map).
+//@ func TagsFromExpr
+//@   params mdata
+//@   locals keys
+//@   opt maprange deterministic
+//@   loop 1 invariant own: keys.arr == 0 || sinceEntry(keys)
+//@   property C09
+//@   modifies all
+
+// ---- generated output does not depend on map iteration order (C09) --------------------------------
+// Every function of this package that ranges over a map is either proved independent of the iteration order
+// (commutativity of the loop body, or keys collected and sorted before use) or listed here as NOT proved;
+// a range over a map appearing anywhere else in the package is reported.
+//@ maprange-census property C09: (*Schema).Dup=2 ToStringMap=1 extensionsFromExprWithPrefix=1 propertiesFromDefs=1
+//@ func (*Schema).Merge
+//@   opt maprange deterministic
+//@   opt inline none
+//@   opt loopframes none
+//@   property C09
+//@   modifies all
+//@ func ExtensionsFromExpr
+//@   opt maprange deterministic
+//@   opt inline none
+//@   opt loopframes none
+//@   property C09
+//@   modifies all
+//@ func MarshalJSON
+//@   opt maprange deterministic
+//@   opt inline none
+//@   opt loopframes none
+//@   property C09
+//@   modifies all
+//@ func MarshalYAML
+//@   opt maprange deterministic
+//@   opt inline none
+//@   opt loopframes none
+//@   property C09
+//@   modifies all
